@@ -347,7 +347,7 @@ fn main() {
         Mode::Explore(t) => *t,
     };
     let rep = Report::new(PROP, tier, cli.seed);
-    let n = tier.pick(4usize, 6usize);
+    let n = tier.pick(4usize, 8usize);
     rep.rule("block = (shape of x, self-override mode, override relation); case = one occurrence sequence of length <= n over {x(v1), x(v2), y, z} (spelled --x v / positional v / --y / --z), plus for Count every repeat count 0..=300 as separate tokens and as one short cluster with a foreign flag at start/middle/end. The real result is compared with the fold-by-action reference. non-trivial = successful parses of sequences with >= 2 occurrences");
     rep.set("bounds", json!({"shapes": SHAPES.iter().map(|s| format!("{:?}", s)).collect::<Vec<_>>(), "self_modes": SELF_MODES, "override_relations": RELS.len(), "max_sequence_len": n, "count_repeats": "0..=300"}));
     rep.assume("an override relation is taken to act in both directions at each new occurrence (documented: 'whichever argument was specified last wins'); after an override removes an argument its count/values start afresh");
